@@ -393,6 +393,63 @@ void add_program_cases(std::vector<ForkCase>& cases, Rng& rng, bool thorough)
 // Every number the printer can be asked to write: positions and nesting levels (size_t) and file / line / column (32 bit) at
 // every digit-count boundary (9, 10, 99, 100, ..., 10^k - 1, 10^k), every power of two and its neighbours, and the maxima.
 // Each must come out as its decimal rendering, nothing else (no control byte, no other base, no padding).
+// Lists of every length: call arguments, parameter types of a function type, template-id arguments, base classes, parameters of
+// a function declared with its mapping, enumerators, statements of a block -- 0..45 items and lengths around 64, 100, 128, 256.
+// Each is printed as a complete top-level item (indentation restored, no stray control bytes, numbers decimal afterwards); the
+// text of n items is also compared with the text of n-1 items of the same list: it continues it (apart from the closing part).
+void add_list_length_cases(std::vector<ForkCase>& cases)
+{
+   std::vector<int> lens; for (int n = 0; n <= 45; ++n) lens.push_back(n);
+   for (int n : { 63, 64, 65, 99, 100, 101, 127, 128, 129, 255, 256, 257 }) lens.push_back(n);
+   for (int n : lens) {
+      std::string label = "list-length:" + std::string(n <= 45 ? "0-45" : "long");
+      cases.push_back({ label + ":" + std::to_string(n), [n, label](CaseOut& out) {
+         impl::Lexicon lex; impl::Translation_unit unit { lex }; const Lexicon& L = lex;
+         auto& greg = *unit.global_region();
+         std::vector<const Expr*> lits; std::vector<const Type*> tys; std::vector<const Name*> ids;
+         const Type* base_t[] = { &L.int_type(), &L.char_type(), &L.double_type(), &lex.get_pointer(L.int_type()), &lex.get_reference(L.char_type()) };
+         for (int i = 0; i < n; ++i) { lits.push_back(lex.make_literal(L.int_type(), widen(std::to_string(i)))); tys.push_back(base_t[i % 5]); ids.push_back(&lex.get_identifier(widen("a" + std::to_string(i)))); }
+         auto run = [&](const char* shape, Role role, auto&& f) { PrintCheck pc { out, label + ":" + shape, role, true, {} }; pc.run(lex, f); out.count("list_length_items_printed"); };
+         // call with n arguments, as a statement
+         {  auto* args = lex.make_expr_list(); for (auto e : lits) args->push_back(e);
+            auto* call = lex.make_call(*lex.make_id_expr(lex.get_identifier(u8"f")), *args); auto* st = lex.make_expr_stmt(*call);
+            run("call-arguments", R_STMT, [&](Printer& pp) { pp << xpr_stmt(*st); }); }
+         // variable of a function type with n parameter types; a pointer to it; the same with an exception specification of n types
+         {  impl::Warehouse<Type> w; for (auto t : tys) w.push_back(*t);
+            auto& prod = lex.get_product(w); auto& ft = lex.get_function(prod, L.void_type()); auto& fts = lex.get_function(prod, L.void_type(), lex.get_sum(w));
+            auto* v = unit.global_scope()->make_var(lex.get_identifier(u8"fn"), ft); auto* pv = unit.global_scope()->make_var(lex.get_identifier(u8"pfn"), lex.get_pointer(fts));
+            run("function-parameter-types", R_DECL, [&](Printer& pp) { pp << xpr_decl(*v, true); });
+            run("exception-specification-types", R_DECL, [&](Printer& pp) { pp << xpr_decl(*pv, true); });
+            auto* tv = unit.global_scope()->make_var(lex.get_identifier(u8"tup"), prod);
+            run("product-components", R_DECL, [&](Printer& pp) { pp << xpr_decl(*tv, true); }); }
+         // template-id with n arguments, as an expression statement
+         {  auto* args = lex.make_expr_list(); for (int i = 0; i < n; ++i) args->push_back(i % 2 ? static_cast<const Expr*>(tys[std::size_t(i)]) : lits[std::size_t(i)]);
+            auto& tid = lex.get_template_id(*lex.make_id_expr(lex.get_identifier(u8"tmpl")), *args); auto* st = lex.make_expr_stmt(*lex.make_id_expr(tid));
+            run("template-id-arguments", R_STMT, [&](Printer& pp) { pp << xpr_stmt(*st); }); }
+         // class with n bases and n fields, declared
+         {  auto* k = lex.make_class(greg); k->id = &lex.get_identifier(u8"K");
+            for (int i = 0; i < n; ++i) { auto* b = lex.make_class(greg); b->id = ids[std::size_t(i)]; k->declare_base(*b); k->declare_field(*ids[std::size_t(i)], *tys[std::size_t(i)]); }
+            auto* d = unit.global_scope()->make_typedecl(lex.get_identifier(u8"K"), L.class_type()); d->init = k;
+            run("bases-and-members", R_DECL, [&](Printer& pp) { pp << xpr_decl(*d, true); }); }
+         // enumeration with n enumerators
+         {  auto* en = lex.make_enum(greg, Enum::Kind::Scoped); en->id = &lex.get_identifier(u8"E"); for (int i = 0; i < n; ++i) en->add_member(*ids[std::size_t(i)]);
+            auto* d = unit.global_scope()->make_typedecl(lex.get_identifier(u8"E"), L.enum_type()); d->init = en;
+            run("enumerators", R_DECL, [&](Printer& pp) { pp << xpr_decl(*d, true); }); }
+         // function declared with a mapping of n parameters and a body of n statements
+         {  impl::Warehouse<Type> w; for (auto t : tys) w.push_back(*t);
+            auto& ft = lex.get_function(lex.get_product(w), L.void_type());
+            auto* m = lex.make_mapping(greg, Mapping_level{ 0 }); for (int i = 0; i < n; ++i) m->param(*ids[std::size_t(i)], *tys[std::size_t(i)]);
+            auto* blk = lex.make_block(m->parameters().region()); for (int i = 0; i < n; ++i) blk->add_stmt(*lex.make_expr_stmt(*lits[std::size_t(i)]));
+            m->body = blk; m->typing = &ft;
+            auto* fd = unit.global_scope()->make_fundecl(lex.get_identifier(u8"g"), ft); fd->data.emplace<1>(m);
+            run("parameters-and-body-statements", R_DECL, [&](Printer& pp) { pp << xpr_decl(*fd, true); }); }
+         // the whole unit in one go
+         run("unit", R_UNIT, [&](Printer& pp) { pp << unit; });
+         out.count("list_length_cases");
+      } });
+   }
+}
+
 static void number_cases(std::vector<ForkCase>& cases)
 {
    std::vector<unsigned long long> vals { 0, 1, 7, 8, 9 };
@@ -452,6 +509,7 @@ static void body(Ctx& C)
    add_nesting_cases(cases, rng, C.thorough);
    add_body_matrix_cases(cases);
    add_enclosure_matrix_cases(cases);
+   add_list_length_cases(cases);
    add_program_cases(cases, rng, C.thorough);
    std::vector<ForkCase> mine;
    for (std::size_t i = 0; i < cases.size(); ++i) if (int(i % std::size_t(C.workers)) == C.worker) mine.push_back(std::move(cases[i]));
@@ -459,7 +517,7 @@ static void body(Ctx& C)
    C.count("cases", (long long)mine.size());
    auto st = run_cases_forked(C, mine, 120);
    (void)st;
-   for (auto k : { "outcome:completed", "outcome:refused", "probes", "literal_spellings", "delimiter_cases", "operator_name_cases", "nesting_cases", "generated_programs", "located_statements_printed", "cases_completed", "numbers_checked", "body_matrix_cases", "enclosure_matrix_cases", "items_printed_to_a_stream_in_a_non_default_formatting_state", "items_printed_after_the_client_changed_its_stream_behind_a_live_printer", "numbers_written_to_a_stream_in_a_non_default_formatting_state" }) C.need(k);
+   for (auto k : { "outcome:completed", "outcome:refused", "probes", "literal_spellings", "delimiter_cases", "operator_name_cases", "nesting_cases", "generated_programs", "located_statements_printed", "cases_completed", "numbers_checked", "body_matrix_cases", "enclosure_matrix_cases", "list_length_cases", "items_printed_to_a_stream_in_a_non_default_formatting_state", "items_printed_after_the_client_changed_its_stream_behind_a_live_printer", "numbers_written_to_a_stream_in_a_non_default_formatting_state" }) C.need(k);
    C.sample(J().s("case", "expr:Demotion").s("what", "a sweep node of kind Demotion offered as xpr_expr; outcome must be completed or refused(logic_error)").str());
    C.sample(J().s("case", "literal:single-byte 0x01").s("what", "literal whose spelling is byte 1, then 255/64/F7001:1234:89 through the same printer").str());
    C.sample(J().s("case", "nesting:depth-200").s("what", "200 nested if/while/switch/for/labeled/try constructs printed as one statement; indentation restored").str());
